@@ -99,6 +99,11 @@ def programs():
     add("map-one-shot-iterables", prog({"k": "apply", "n": 71, "fn": "f1", "src": {"k": "map", "body": {"k": "tuple", "items": [O("A", dk="const", dv=0), O("B", dk="const", dv=0), O("C", dk="const", dv=0)]},
                                         "iters": [["A", C([1, 2])], ["B", {"k": "iter", "items": [C("x"), O("E", dk="const", dv="y")]}],
                                                   ["C", {"k": "map", "body": O("T.X", dk="const", dv="t"), "iters": [["T.X", C([7, 8])]], "values": True}]]}}))
+    # a Map whose elements choose different branches: one element's branch cannot be chosen (its selector needs an absent
+    # option) while the body explained on its own - with the caller's value / the default of the mapped key - is decidable
+    add("map-element-branch-cannot-be-chosen", prog({"k": "apply", "n": 91, "fn": "f1", "src": {"k": "map", "iters": [["B", C(["s", 1])]], "body": {
+        "k": "case", "n": 92, "disp": O("B", dk="const", dv=-1), "cases": [["is_int", O("A", dk="const", dv=0)]],
+        "default": {"k": "bind", "n": 93, "src": O("D"), "table": [["b", O("C", dk="const", dv="c")]], "else": O("A", dk="const", dv=1)}}}}))
     # a key that is present with a null value is PRESENT: the default (and what the default reads) plays no part
     add("null-valued-option", prog({"k": "tuple", "items": [DS(1), {"k": "cached", "spec": O("C", dk="tmpl", dv="{S.X} t")}]},
                                    d1={"args": [["a", O("A", dk="spec", dv=O("B"))], ["c", O("E", dk="spec", dv=DS(2))]]},
